@@ -112,11 +112,13 @@ fn response_bytes(x: usize, e: &Value) -> (Vec<Vec<u8>>, bool) {
         all.truncate(head_len + wire_cut.min(wire_body.len()));
         close = true;
     }
-    if e["extra"].as_bool().unwrap_or(false) {
-        all.extend_from_slice(b"HTTP/1.1 299 LEFTOVER\r\ncontent-length: 2\r\n\r\nzz");
-    }
     let seg = e["seg"].as_u64().unwrap_or(1 << 20) as usize;
-    (all.chunks(seg.max(1)).map(|c| c.to_vec()).collect(), close)
+    let mut segs: Vec<Vec<u8>> = all.chunks(seg.max(1)).map(|c| c.to_vec()).collect();
+    if e["extra"].as_bool().unwrap_or(false) {
+        // bytes the server writes after the message, in a segment of their own: they are still unread when the message has been consumed
+        segs.push(b"HTTP/1.1 299 LEFTOVER\r\ncontent-length: 2\r\n\r\nzz".to_vec());
+    }
+    (segs, close)
 }
 
 impl AsyncRead for Sock {
